@@ -81,8 +81,12 @@ Definition dbind {A B} (d : dec A) (f : A -> dec B) : dec B :=
 Notation "x <- d ;; e" := (dbind d (fun x => e)) (at level 61, d at next level, right associativity).
 
 Definition dZ : dec Z := fun l => match l with x :: r => Some (x, r) | [] => None end.
+(* sizes and indices: non-negative and at most 10^7 (anything larger in a record is garbage, e.g. an
+   uninitialised count; decoding then fails and the judge reports a malformed record) *)
 Definition dnat : dec nat :=
-  fun l => match l with x :: r => if x <? 0 then None else Some (Z.to_nat x, r) | [] => None end.
+  fun l => match l with
+           | x :: r => if (x <? 0) || (10000000 <? x) then None else Some (Z.to_nat x, r)
+           | [] => None end.
 Definition dbool : dec bool :=
   fun l => match l with x :: r => Some (negb (x =? 0), r) | [] => None end.
 (* an index or -1 for "none" *)
